@@ -471,6 +471,7 @@ impl Model {
                 self.data_pos = 0;
                 Ok(())
             }
+            Stmt::Dim(_, idx) if idx.is_empty() => Ok(()),
             Stmt::Dim(name, idx) => {
                 let index = self.eval_index_list(idx)?;
                 if self.arrays.contains_key(name) {
